@@ -28,6 +28,63 @@ var pureLibPkgs = []string{"strings", "strconv", "bytes", "math", "fmt", "errors
 	"github.com/spf13/viper", "net/http", "log", "encoding/base64", "html", "github.com/cenkalti/backoff", "github.com/json-iterator/go",
 	"google.golang.org/protobuf/proto", "compress/zlib", "github.com/pierrec/lz4/v4", "hash/fnv", "reflect", "io/ioutil", "bufio", "crypto/tls", "text/template"}
 
+// packages whose functions only read their arguments
+var readOnlyLibPkgs = []string{"strings", "strconv", "math", "errors", "unicode", "time", "context", "github.com/sirupsen/logrus", "fmt", "path",
+	"net/url", "hash", "os", "runtime", "html", "encoding/base64", "log", "bytes", "regexp", "github.com/tilinna/clock", "net"}
+
+func isReadOnlyLibPkg(p string) bool {
+	for _, q := range readOnlyLibPkgs {
+		if p == q || strings.HasPrefix(p, q+"/") {
+			return true
+		}
+	}
+	return false
+}
+
+// havocPointee forgets what v points to (one level): the variable or field behind an address, the fields of the
+// struct behind a reference, the elements of a slice, the pointer boxed in an interface value.
+func (fr *Frame) havocPointee(v Val, st *State, depth int) {
+	c := fr.c
+	if depth > 1 || v.T == nil {
+		return
+	}
+	if v.Dyn != nil {
+		fr.havocPointee(v.Dyn.V, st, depth)
+		return
+	}
+	switch u := v.T.Underlying().(type) {
+	case *types.Pointer:
+		et := u.Elem()
+		if v.Addr != nil {
+			if v.Addr.Kind == akElem && v.Addr.Idx == "" {
+				name, sort := c.elemHeap(v.Addr.RootT)
+				c.heapSet(st, name, sort, sto(c.heapGet(st, name, sort), v.Addr.Ref, c.smt.declareFresh("extw.arr", arrayElemSort(sort))))
+				return
+			}
+			c.store(st, v.Addr, fr.havocVal(et, "extw"))
+			return
+		}
+		if st0, ok := et.Underlying().(*types.Struct); ok {
+			ref := c.termOf(v)
+			for i := 0; i < st0.NumFields(); i++ {
+				name, sort := c.fieldHeap(et, i)
+				nv := fr.havocVal(st0.Field(i).Type(), "extw")
+				c.heapSet(st, name, sort, sto(c.heapGet(st, name, sort), ref, c.termOf(nv)))
+			}
+			return
+		}
+		if v.Term != "" {
+			c.ptrStore(st, v.Term, et, c.termOf(fr.havocVal(et, "extw")))
+		}
+	case *types.Slice:
+		if v.Term == "" {
+			return
+		}
+		name, sort := c.elemHeap(u.Elem())
+		c.heapSet(st, name, sort, sto(c.heapGet(st, name, sort), app("sl_base", v.Term), c.smt.declareFresh("extw.arr", arrayElemSort(sort))))
+	}
+}
+
 func isPureLibPkg(p string) bool {
 	for _, q := range pureLibPkgs {
 		if p == q || strings.HasPrefix(p, q+"/") {
@@ -51,7 +108,16 @@ func (fr *Frame) external(callee *ssa.Function, args []Val, resT types.Type, st 
 		pk = callee.Object().Pkg().Path()
 	}
 	if isPureLibPkg(pk) {
-		c.assumedExternal[name+" (result unconstrained; assumed not to touch gostatsd's heap)"] = true
+		if isReadOnlyLibPkg(pk) {
+			c.assumedExternal[name+" (result unconstrained; assumed not to write gostatsd's memory)"] = true
+		} else {
+			// a library function may write through the pointers, slices and boxed pointers it is handed
+			// (json.Unmarshal(b, &v), io.ReadFull(r, buf), atomic.AddUint64(&x, 1), sort.Slice(s, ...))
+			c.assumedExternal[name+" (result unconstrained; may write what its arguments point to, nothing else of gostatsd's memory)"] = true
+			for _, a := range args {
+				fr.havocPointee(a, st, 0)
+			}
+		}
 		// results that are references are fresh or nil; allocation may grow
 		return fr.havocVal(resT, "ext."+callee.Name())
 	}
@@ -341,6 +407,141 @@ func init() {
 		name, sort := c.elemHeap(tStr)
 		h := c.heapGet(st, name, sort)
 		return Val{T: resT, Term: c.smt.define("join", "Str", app("str_join", sel(h, app("sl_base", s)), app("sl_off", s), app("sl_len", s), c.termOf(args[1])))}
+	}
+	// --- strings.SplitN / Split: at least one piece, at most n (n > 0) -----------------------------------------
+	splitModel := func(fr *Frame, callee *ssa.Function, args []Val, resT types.Type, st *State, reach string, pos token.Pos) Val {
+		c := fr.c
+		r := fr.havocVal(resT, "split")
+		rt := c.termOf(r)
+		c.smt.assume(and(app(">=", app("sl_len", rt), "1"), not(eq(app("sl_base", rt), "0"))), "strings.Split*: at least one piece")
+		if len(args) == 3 {
+			n := c.termOf(args[2])
+			c.smt.assume(implies(app(">", n, "0"), app("<=", app("sl_len", rt), n)), "strings.SplitN: at most n pieces")
+		}
+		return r
+	}
+	externalModels["strings.SplitN"] = splitModel
+	externalModels["strings.Split"] = splitModel
+	// --- strings.Builder / bytes.Buffer: only the length of the accumulated bytes is modelled (len of the buf field) ---
+	bufField := func(c *FnCtx, callee *ssa.Function) (string, string, bool) {
+		rt := callee.Signature.Recv().Type()
+		pt, ok := rt.Underlying().(*types.Pointer)
+		if !ok {
+			return "", "", false
+		}
+		idx, _, _ := findField(pt.Elem(), "buf")
+		if idx < 0 {
+			return "", "", false
+		}
+		n, srt := c.fieldHeap(pt.Elem(), idx)
+		return n, srt, true
+	}
+	grow := func(kind string) extModel {
+		return func(fr *Frame, callee *ssa.Function, args []Val, resT types.Type, st *State, reach string, pos token.Pos) Val {
+			c := fr.c
+			recv := c.termOf(args[0])
+			fr.oblige("safety", "nil dereference "+c.eng.srcText(pos, "call"), reach, not(eq(recv, "0")), pos)
+			hn, hs, ok := bufField(c, callee)
+			if !ok {
+				return fr.havocVal(resT, "buf")
+			}
+			h := c.heapGet(st, hn, hs)
+			oldLen := app("sl_len", sel(h, recv))
+			nb := c.smt.declareFresh("bufslice", "Slice")
+			c.smt.assume(c.typeFacts(types.NewSlice(types.Typ[types.Byte]), nb), "")
+			var add string
+			switch kind {
+			case "string":
+				add = app("slen", c.termOf(args[1]))
+			case "bytes":
+				add = app("sl_len", c.termOf(args[1]))
+			case "byte":
+				add = "1"
+			case "rune":
+				k := c.smt.declareFresh("runelen", "Int")
+				c.smt.assume(and(app("<=", "1", k), app("<=", k, "4")), "a rune is 1..4 bytes")
+				add = k
+			case "reset":
+				c.smt.assume(eq(app("sl_len", nb), "0"), "Reset empties the buffer")
+				c.heapSet(st, hn, hs, sto(h, recv, nb))
+				return Val{T: resT}
+			}
+			c.smt.assume(eq(app("sl_len", nb), app("+", oldLen, add)), "the buffer grows by what was written")
+			c.heapSet(st, hn, hs, sto(h, recv, nb))
+			r := fr.havocVal(resT, "wr")
+			return r
+		}
+	}
+	for _, ty := range []string{"(*strings.Builder)", "(*bytes.Buffer)"} {
+		externalModels[ty+".WriteString"] = grow("string")
+		externalModels[ty+".Write"] = grow("bytes")
+		externalModels[ty+".WriteByte"] = grow("byte")
+		externalModels[ty+".WriteRune"] = grow("rune")
+		externalModels[ty+".Reset"] = grow("reset")
+		for _, mn := range []string{"WriteString", "Write", "WriteByte", "WriteRune", "Reset"} {
+			externalEffects[ty+"."+mn] = func(e *Engine, sc *FnCtx, callee *ssa.Function, eff *Effects) {
+				if hn, hs, ok := bufField(sc, callee); ok {
+					eff.heap(hn, hs)
+				}
+			}
+		}
+		externalModels[ty+".Len"] = func(fr *Frame, callee *ssa.Function, args []Val, resT types.Type, st *State, reach string, pos token.Pos) Val {
+			c := fr.c
+			recv := c.termOf(args[0])
+			fr.oblige("safety", "nil dereference "+c.eng.srcText(pos, "call"), reach, not(eq(recv, "0")), pos)
+			hn, hs, ok := bufField(c, callee)
+			if !ok {
+				return fr.havocVal(resT, "buflen")
+			}
+			return Val{T: resT, Term: c.smt.define("buflen", "Int", app("sl_len", sel(c.heapGet(st, hn, hs), recv)))}
+		}
+		externalModels[ty+".String"] = func(fr *Frame, callee *ssa.Function, args []Val, resT types.Type, st *State, reach string, pos token.Pos) Val {
+			c := fr.c
+			recv := c.termOf(args[0])
+			hn, hs, ok := bufField(c, callee)
+			r := fr.havocVal(resT, "bufstr")
+			if ok {
+				// (a nil *bytes.Buffer yields "<nil>", a nil *strings.Builder panics: not distinguished, callers in scope hold non-nil ones)
+				c.smt.assume(implies(not(eq(recv, "0")), eq(app("slen", c.termOf(r)), app("sl_len", sel(c.heapGet(st, hn, hs), recv)))), "String() has the accumulated length")
+			}
+			return r
+		}
+	}
+	// --- sync/atomic on integers: plain loads and stores (no interleavings are modelled) -------------------------
+	for _, ty := range []string{"Int32", "Int64", "Uint32", "Uint64"} {
+		ty := ty
+		externalModels["sync/atomic.Load"+ty] = func(fr *Frame, callee *ssa.Function, args []Val, resT types.Type, st *State, reach string, pos token.Pos) Val {
+			v := fr.loadVia(args[0], st, reach, pos)
+			v.T = resT
+			return v
+		}
+		externalModels["sync/atomic.Store"+ty] = func(fr *Frame, callee *ssa.Function, args []Val, resT types.Type, st *State, reach string, pos token.Pos) Val {
+			fr.storeVia(args[0], args[1], st, reach, pos)
+			return Val{T: resT}
+		}
+		externalModels["sync/atomic.Add"+ty] = func(fr *Frame, callee *ssa.Function, args []Val, resT types.Type, st *State, reach string, pos token.Pos) Val {
+			c := fr.c
+			old := fr.loadVia(args[0], st, reach, pos)
+			nv := Val{T: resT, Term: c.smt.define("atomicadd", "Int", wrapTo(resT, app("+", c.termOf(old), c.termOf(args[1]))))}
+			fr.storeVia(args[0], nv, st, reach, pos)
+			return nv
+		}
+		externalModels["sync/atomic.Swap"+ty] = func(fr *Frame, callee *ssa.Function, args []Val, resT types.Type, st *State, reach string, pos token.Pos) Val {
+			old := fr.loadVia(args[0], st, reach, pos)
+			fr.storeVia(args[0], args[1], st, reach, pos)
+			old.T = resT
+			return old
+		}
+		for _, op := range []string{"Store", "Add", "Swap"} {
+			externalEffects["sync/atomic."+op+ty] = func(e *Engine, sc *FnCtx, callee *ssa.Function, eff *Effects) {
+				et := callee.Signature.Params().At(0).Type().Underlying().(*types.Pointer).Elem()
+				eff.heap(sc.cellHeap(et))
+				eff.heap(sc.elemHeap(et))
+				for _, fc := range e.fieldsOfType(et) {
+					eff.heap(sc.fieldHeap(fc.st, fc.idx))
+				}
+			}
+		}
 	}
 	// --- regexp: matching is an uninterpreted pure function of (compiled regexp, string) --------------------------
 	externalModels["regexp.MustCompile"] = func(fr *Frame, callee *ssa.Function, args []Val, resT types.Type, st *State, reach string, pos token.Pos) Val {
